@@ -62,8 +62,10 @@ def run(ctx):
         nt = F.nontrivial(f)
         be = str(rng.choice(['fastcore', 'fastcore', 'fastcore', 'igraph', 'nx']))
         ctx.count('backend:' + be)
+        kind = str(rng.choice(['strahler', 'strahler', 'sfc', 'sfc', 'bending', 'leafflow', 'misc']))
+        if kind == 'strahler' and rng.random() < 0.4:
+            be = str(rng.choice(['igraph', 'nx']))        # the pure-Python Strahler sweep (forks with three or more equal children: star shapes)
         with F.backend(be):
-            kind = str(rng.choice(['strahler', 'strahler', 'sfc', 'sfc', 'bending', 'leafflow', 'misc']))
             desc = dict(forest=f, op=kind, backend=be)
             if kind == 'strahler':
                 method = str(rng.choice(['standard', 'greedy']))
